@@ -657,6 +657,9 @@ result_t DateTimeDataType::writeSymbols(size_t offset, size_t length, istringstr
         } else if (m_hasDate) {
           if (i + 1 == count) {
             last = (lastLast * 24 + last) * 60 + value;
+            if (last >= 33237U*24*60) {
+              return RESULT_ERR_OUT_OF_RANGE;  // beyond 31.12.2099 23:59 (e.g. 31.12.2099 24:00), not decodable
+            }
             value = last & 0xff;
             last >>= 8;
             index = start;
